@@ -18,6 +18,8 @@ import (
 type c11Fault struct {
 	// Kind: refuse (N immediately refused attempts), refuse-after, stall,
 	// close, reset, cease (on an accepted outbound connection at State),
+	// reset-after-open (the remote answers corebgp's OPEN and resets the connection while
+	// the plugin's OnOpenMessage still runs: corebgp's KEEPALIVE write fails),
 	// inbound (an inbound session brought to State, then ended by End),
 	// wait
 	Kind    string `json:"kind"`
@@ -63,6 +65,11 @@ func c11Prop(t *testing.T, r *hx.Run) func(c c11Case) hx.Verdict {
 			return e
 		}
 		p := world.PeerSpec{Remote: "10.0.0.2", LocalAS: 64512, RemoteAS: 64513, Passive: c.Passive, Hold: 90, IdleHoldMs: c.IdleHoldMs, ConnRetryMs: c.ConnRetryMs}
+		for _, f := range c.Faults {
+			if f.Kind == "reset-after-open" {
+				p.Plugin.SpinUs = map[string]int64{"open": 600} // OnOpenMessage takes a while
+			}
+		}
 		var dev *hx.Dev
 		fail := func(key, f string, a ...any) {
 			if dev == nil {
@@ -166,6 +173,23 @@ func c11Prop(t *testing.T, r *hx.Run) func(c c11Case) hx.Verdict {
 						fail("stopped-dialling", "fault %d (%s): no (finished) dial attempt within %v", fi, f.Kind, limit)
 						return
 					}
+					w.Settle()
+				case "reset-after-open":
+					setPlan(memnet.DialPlan{Kind: memnet.Accept})
+					if !w.Net.WaitDials(done+1, limit) {
+						fail("stopped-dialling", "fault %d (%s): no dial attempt within %v", fi, f.Kind, limit)
+						return
+					}
+					w.Settle()
+					cn := w.Net.Dials()[done].Conn
+					setPlan(memnet.DialPlan{Kind: memnet.Refuse})
+					if cn == nil {
+						fail("setup", "accepted dial has no connection")
+						return
+					}
+					cn.RemoteSend(world.RemoteOpen(p, cn, 90, 0x0a000002).Frame(), nil)
+					memnet.Spin(int64(f.DelayMs)) // (microseconds here) the OPEN is read, the callback runs
+					cn.RemoteReset()
 					w.Settle()
 				case "close", "reset", "cease":
 					setPlan(memnet.DialPlan{Kind: memnet.Accept})
@@ -330,7 +354,7 @@ func c11PlanFor(f c11Fault) memnet.DialPlan {
 		return memnet.DialPlan{Kind: memnet.Refuse, Delay: time.Duration(f.DelayMs) * time.Millisecond}
 	case "stall":
 		return memnet.DialPlan{Kind: memnet.Stall}
-	case "close", "reset", "cease":
+	case "close", "reset", "cease", "reset-after-open":
 		return memnet.DialPlan{Kind: memnet.Accept}
 	}
 	return memnet.DialPlan{Kind: memnet.Refuse}
@@ -349,11 +373,13 @@ func genC11(rt *rapid.T) c11Case {
 		if c.Passive {
 			f.Kind = pick(rt, "pkind", "inbound", "inbound", "wait")
 		} else {
-			f.Kind = pick(rt, "kind", "refuse", "refuse", "refuse-after", "stall", "close", "reset", "cease", "inbound", "wait")
+			f.Kind = pick(rt, "kind", "refuse", "refuse", "refuse-after", "stall", "close", "reset", "cease", "inbound", "wait", "reset-after-open")
 		}
 		switch f.Kind {
 		case "refuse":
 			f.N = rapid.IntRange(1, 5).Draw(rt, "nref")
+		case "reset-after-open":
+			f.DelayMs = pick(rt, "rao", 50, 150, 300, 450)
 		case "refuse-after":
 			f.DelayMs = rapid.IntRange(1, c.ConnRetryMs-1).Draw(rt, "rdelay")
 		case "wait":
